@@ -83,6 +83,11 @@ theorem round_trip_below_timeout_keeps_both (I T l : Nat) (hl : 0 < l) (hlT : l 
   have h := this 0 0 (by simp)
   rwa [← List.range_eq_range'] at h
 
+/-- detection "within the bound" is the instant the application is told: both Engine.IO sockets report a close (OnClose) before
+    they take transportMu or close the transport, so the report waits neither for an upgrade or a request in flight that holds the lock
+    nor for a WebSocket's closing handshake (D34; read from the source) -/
+theorem close_is_reported_first : Gen.eioCloseReportedFirst = true := by decide
+
 /-! non-vacuity -/
 example : (srvLoop 25 20 3 0 false [30, 60]).1 = [25, 55, 85] ∧ (srvLoop 25 20 3 0 false [30, 60]).2 = .closed 105 := by decide
 example : SrvLive 25 20 0 [30, 60] := by simp [SrvLive]
